@@ -149,6 +149,27 @@ add("C20", "exploration",
     "middle member accepted as the median for an even number of members.",
     "DESIGN.md section 4, C20")
 
+add("C16", "exploration",
+    "model-based retain-state programs, copy/independence histories, exhaustive read-only enumeration",
+    "Generated reactors and tree-shaped programs of nested retain-state scopes with all parameter kinds are judged after every scope "
+    "exit against an expectation assembled from the entry and pre-exit snapshots. Copy and pickle histories are checked for equality, "
+    "serial uniqueness and mutual independence. Read-only refusal is enumerated completely (every parameter of every object, both "
+    "assignment forms) for three fixed reactors and sampled on generated ones.",
+    "The blueprint -> reactor factory; vp.model.observe field readers used passively; the expectation uses armi's own pre-exit values "
+    "for kept parameters; in-place edits of kept parameters are out of scope.",
+    "DESIGN.md section 4, C16")
+
+add("C18", "exploration",
+    "property-based testing with an independent document evaluator and a geometric lattice-map model, plus complete enumeration",
+    "About 400 generated blueprint documents per run (hex third/full, corners up, Cartesian; pin lattices, links, modifications, custom "
+    "isotopics) compared field by field with an evaluator that only reads the YAML; about 5 000 lattice maps and grid save/load round "
+    "trips per run across all four asciimap classes; regular outlines enumerated completely; 360 documents with one injected "
+    "inconsistency must be refused.",
+    "armi.materials, nucDirectory and Component number densities; ruamel; lattice-map conventions taken from asciimaps docstrings and "
+    "test maps; inputHeightsConsideredHot=True; known shapes (asciimap outline inference through the direct API, duplicate names) are "
+    "excluded by construction and counted.",
+    "DESIGN.md section 4, C18")
+
 NOT_BUILT_REASON = "check not built yet in this round (planned in DESIGN.md section 4); not claimed"
 
 
